@@ -195,73 +195,74 @@ def save_rule(R, lib, consts):
                         (scope, poly_key_str(res), 'Basic' if scope == 'basic' else 'Extended'))
 
 
-def _eq_pairs(formula_src):
-    return formula_src
-
-
-def compared_fields(e, a, b, lib=None):
-    """set of field names f such that (a.f == b.f) or (a.f() == b.f()) occurs in conjunction e; plus 'mismatch' notes."""
-    out, bad = set(), []
-
-    def rec(x):
-        if x.k == 'bin' and x.a[0] == '&&':
-            rec(x.a[1])
-            rec(x.a[2])
-            return
-        y = x
-        while y.k in ('cast',) or (y.k == 'un' and y.a[0] == 'bool'):
-            y = y.a[-1]
-        l = r = None
-        if y.k == 'bin' and y.a[0] == '==':
-            l, r = y.a[1], y.a[2]
-        elif y.k == 'call' and y.a[0].endswith('operator==') and len(y.a[2]) == 2:
-            l, r = y.a[2]
-        if l is None:
-            bad.append('conjunct %s is not an equality' % show(x)[:60])
-            return
-        while l.k == 'cast':
-            l = l.a[2]
-        while r.k == 'cast':
-            r = r.a[2]
-        pl, pr = path_of(l), path_of(r)
-        if pl and pr and '.' in pl and '.' in pr:
-            (ol, fl), (or_, fr) = pl.split('.', 1), pr.split('.', 1)
-            if {ol, or_} == {a, b} and fl == fr:
-                out.add(fl)
-                return
-            bad.append('%s is compared with %s' % (pl, pr))
-            return
-        bad.append('conjunct %s does not compare a field of both operands' % show(x)[:60])
-    rec(e)
-    return out, bad
+def equality_table(lib, f, fields, disc=None, disc_values=(None,), other=None):
+    """Decide operator== by evaluation of its path summary (E-GNF, boolean returns split into guarded 1/0 outcomes) on every
+    0/1 assignment of the fields of both operands: -> list of (disc value, {field: (va, vb)}, result) rows; result None
+    when no single path applies.  Nested operator== calls on sub-objects count as comparisons of those sub-objects."""
+    import itertools
+    from .gnf import eval_formula
+    a, b = f.params[0][0], f.params[1][0]
+    sx = SymExec(fold_global=lib.global_value)
+    sx.bool_return = True
+    sx.cmp_calls = {'ace_time::operator==': '==', 'ace_time::operator!=': '!='}
+    summ = sx.run(f.name, f.body, {})
+    known = {('sym', '%s.%s' % (o, n)) for o in (a, b) for n in list(fields) + ([disc] if disc else [])}
+    foreign = set()
+    for g in summ.guards():
+        for at in formula_atoms(g):
+            for x in _P(at[1]).atoms():
+                if x not in known:
+                    foreign.add(x)
+    if foreign:
+        return None, 'the comparison reads %s, which is not a field of the two operands' % sorted(repr(Poly.atom(x)) for x in foreign)[:3]
+    rows = []
+    fl = sorted(fields)
+    full = len(fl) <= 6
+    for dv in disc_values:
+        for db in ((dv, other) if disc else (None,)):
+            if full:
+                combos = itertools.product((0, 1), repeat=2 * len(fl))
+            else:
+                combos = [tuple(0 for _ in range(2 * len(fl)))] + [tuple(1 if j == i else 0 for j in range(2 * len(fl))) for i in range(2 * len(fl))]
+            for combo in combos:
+                env = {}
+                for i, n in enumerate(fl):
+                    env[('sym', '%s.%s' % (a, n))] = combo[2 * i]
+                    env[('sym', '%s.%s' % (b, n))] = combo[2 * i + 1]
+                if disc:
+                    env[('sym', '%s.%s' % (a, disc))] = dv
+                    env[('sym', '%s.%s' % (b, disc))] = db
+                hits = [p for p in summ.paths if eval_formula(p[0], env)]
+                res = None
+                if len(hits) == 1 and hits[0][1] == 'return' and hits[0][2] is not None and _P(hits[0][2]).is_const():
+                    res = _P(hits[0][2]).const_value()
+                rows.append((dv, db, {n: (combo[2 * i], combo[2 * i + 1]) for i, n in enumerate(fl)}, res))
+    return rows, ''
 
 
 def equality_rules(R, lib, consts):
-    R.rule('R3', 'operator== compares the discriminator first and then every field of the active arm, same field on both sides', floor=10)
-    # plain classes: all fields
+    R.rule('R3', 'operator== is true exactly when the kinds agree and every field of the active arm agrees (evaluated on every 0/1 assignment of the fields)', floor=10)
     for cls in ('LocalDate', 'LocalTime', 'LocalDateTime', 'OffsetDateTime', 'ZonedDateTime', 'TimeOffset', 'TimePeriod'):
-        q = 'ace_time::operator=='
-        fs = [f for f in lib.funcs.get(q, []) if f.params and cls in (f.params[0][1] or '') and ('::' + cls + ' ') in (' ' + (f.params[0][1] or '').replace('const ', '').replace('&', ' '))]
-        fs = [f for f in fs if (f.params[0][1] or '').replace('const ', '').replace('&', '').strip() == 'ace_time::' + cls]
+        fs = [f for f in lib.funcs.get('ace_time::operator==', []) if f.params and (f.params[0][1] or '').replace('const ', '').replace('&', '').strip() == 'ace_time::' + cls]
         c = 'operator==(%s)' % cls
         if not fs:
             if cls == 'TimePeriod':
                 continue
             raise AnalysisError('anchor vanished: operator== for %s' % cls)
         f = fs[0]
-        R.instance('R3', c, f.loc)
-        a, b = f.params[0][0], f.params[1][0]
-        rets = [s for s in walk_stmts(f.body) if s.k == 'return']
-        if len(rets) != 1:
-            R.violation('R3', c, f.loc, 'equality is not a single conjunction')
-            continue
-        got, bad = compared_fields(rets[0].a[0], a, b)
         fields = {n for n, _t, _x in lib.fields('ace_time::' + cls)}
-        if bad:
-            R.violation('R3', c, rets[0].loc, '; '.join(bad))
-        elif got != fields:
-            R.violation('R3', c, rets[0].loc, 'fields %s are not compared (compared: %s)' % (sorted(fields - got), sorted(got)))
-    # discriminated unions
+        rows, why = equality_table(lib, f, fields)
+        R.instance('R3', c, f.loc, '%d assignments' % (len(rows) if rows else 0))
+        if rows is None:
+            R.violation('R3', c, f.loc, why)
+            continue
+        for _dv, _db, asg, res in rows:
+            differ = sorted(n for n, (x, y) in asg.items() if x != y)
+            want = 0 if differ else 1
+            if res != want:
+                R.violation('R3', c, f.loc, 'two values that differ in %s compare equal: the field is not compared (or not with its counterpart)' % ', '.join(differ)
+                            if differ else 'two values with equal fields do not compare equal')
+                break
     for cls, disc, arms in ((TZ, 'mType', {
             'kTypeError': set(), 'kTypeManual': {'mStdOffsetMinutes', 'mDstOffsetMinutes'}, 'kTypeBasic': {'mZoneInfo'},
             'kTypeExtended': {'mZoneInfo'}, 'kTypeBasicManaged': {'mZoneInfo'}, 'kTypeExtendedManaged': {'mZoneInfo'}}, ),
@@ -271,71 +272,36 @@ def equality_rules(R, lib, consts):
         if not fs:
             raise AnalysisError('anchor vanished: operator== for %s' % short)
         f = fs[0]
-        a, b = f.params[0][0], f.params[1][0]
-        body = f.body
+        pref = 'TZ.' if cls == TZ else 'TZD.'
+        allf = set().union(*arms.values())
+        vals = {name: consts[pref + name] for name in arms}
+        other = max(vals.values()) + 1
+        rows, why = equality_table(lib, f, allf, disc=disc, disc_values=sorted(set(vals.values())), other=other)
         c0 = 'operator==(%s):discriminator' % short
         R.instance('R3', c0, f.loc)
-        first = body[0] if body else None
-        ok = False
-        if first is not None and first.k == 'if':
-            cnd = first.a[0]
-            while cnd.k == 'cast':
-                cnd = cnd.a[2]
-            if cnd.k == 'bin' and cnd.a[0] == '!=':
-                l, r = cnd.a[1], cnd.a[2]
-                while l.k == 'cast':
-                    l = l.a[2]
-                while r.k == 'cast':
-                    r = r.a[2]
-                ok = {path_of(l), path_of(r)} == {a + '.' + disc, b + '.' + disc} and first.a[1] and first.a[1][0].k == 'return' \
-                    and first.a[1][0].a[0].k == 'const' and first.a[1][0].a[0].a[0] == 0
-        if not ok:
-            R.violation('R3', c0, f.loc, 'the kinds of the two operands are not compared first')
-        sw = [s for s in body if s.k == 'switch']
-        if len(sw) != 1:
-            R.violation('R3', c0, f.loc, 'expected one switch over the kind')
+        if rows is None:
+            R.violation('R3', c0, f.loc, why)
             continue
-        pref = 'TZ.' if cls == TZ else 'TZD.'
+        bad_disc = [r for r in rows if r[1] != r[0] and r[3] != 0]
+        if bad_disc:
+            R.violation('R3', c0, f.loc, 'two values of different kinds (%s vs %s) compare equal' % (bad_disc[0][0], bad_disc[0][1]))
         for name, want in arms.items():
-            v = consts[pref + name]
+            v = vals[name]
             c = 'operator==(%s):%s' % (short, name)
-            R.instance('R3', c, sw[0].loc)
-            arm = None
-            for labels, blk in sw[0].a[1]:
-                for l in labels:
-                    if l is not None:
-                        lv = l
-                        while lv.k == 'cast':
-                            lv = lv.a[2]
-                        val = lv.a[0] if lv.k == 'const' else lib.global_value(lv.a[0]) if lv.k == 'var' else None
-                        if val == v:
-                            arm = blk
-            if arm is None:
-                # falls to default
-                for labels, blk in sw[0].a[1]:
-                    if any(l is None for l in labels):
-                        arm = blk
-            # follow fall-through: an empty arm shares the next non-empty block
-            if arm is not None and not arm:
-                idx = [i for i, (_l, blk) in enumerate(sw[0].a[1]) if blk is arm][0]
-                for _l, blk in sw[0].a[1][idx:]:
-                    if blk:
-                        arm = blk
-                        break
-            rets = [s for s in (arm or []) if s.k == 'return']
-            if not rets:
-                R.violation('R3', c, sw[0].loc, 'no result for kind %s' % name)
-                continue
-            e = rets[0].a[0]
-            if not want:
-                if not (e.k == 'const' and e.a[0] == 1):
-                    R.violation('R3', c, rets[0].loc, 'two %s values of kind %s do not compare equal' % (short, name))
-                continue
-            got, bad = compared_fields(e, a, b)
-            if bad:
-                R.violation('R3', c, rets[0].loc, '; '.join(bad))
-            elif got != want:
-                R.violation('R3', c, rets[0].loc, 'kind %s compares fields %s, expected %s' % (name, sorted(got), sorted(want)))
+            R.instance('R3', c, f.loc)
+            for dv, db, asg, res in rows:
+                if dv != v or db != v:
+                    continue
+                differ = sorted(n for n, (x, y) in asg.items() if x != y and n in want)
+                expect = 0 if differ else 1
+                if res != expect:
+                    if differ:
+                        R.violation('R3', c, f.loc, 'two %s values of kind %s that differ in %s compare equal' % (short, name, ', '.join(differ)))
+                    else:
+                        extra = sorted(n for n, (x, y) in asg.items() if x != y)
+                        R.violation('R3', c, f.loc, 'two %s values of kind %s with equal %s do not compare equal%s' % (
+                            short, name, ', '.join(sorted(want)) or 'kind', (' (they differ only in %s, which is not part of that kind)' % ', '.join(extra)) if extra else ''))
+                    break
 
 
 def manual_rule(R, lib, consts):
@@ -418,6 +384,26 @@ SELFTEST = [
          find='  return a.mLocalDateTime == b.mLocalDateTime\n      && a.mTimeOffset == b.mTimeOffset;', replace='  return a.mLocalDateTime == b.mLocalDateTime;', rule='R3'),
     dict(id='manual-offset-std-only', file='src/ace_time/TimeZone.h', unique=False, nth=0,
          find='return TimeOffset::forMinutes(mStdOffsetMinutes + mDstOffsetMinutes);', replace='return TimeOffset::forMinutes(mStdOffsetMinutes);', rule='R4', construct='getUtcOffset'),
+    dict(id='equality-zone-compared-for-manual', file='src/ace_time/TimeZone.h',
+         find='      return a.mStdOffsetMinutes == b.mStdOffsetMinutes\n          && a.mDstOffsetMinutes == b.mDstOffsetMinutes;',
+         replace='      return a.mStdOffsetMinutes == b.mStdOffsetMinutes\n          && a.mDstOffsetMinutes == b.mDstOffsetMinutes\n          && a.mZoneInfo == b.mZoneInfo;', rule='R3', construct='kTypeManual'),
+    dict(id='equality-kinds-not-compared', file='src/ace_time/TimeZoneData.h', find='  if (a.type != b.type) return false;\n  switch (a.type) {\n    case TimeZoneData::kTypeManual:',
+         replace='  switch (a.type) {\n    case TimeZoneData::kTypeManual:', rule='R3', construct='discriminator'),
+    # behaviour-preserving rewrites: the rules must stay quiet
+    dict(id='equality-sides-swapped-silent', file='src/ace_time/TimeZone.h',
+         find='      return a.mStdOffsetMinutes == b.mStdOffsetMinutes\n          && a.mDstOffsetMinutes == b.mDstOffsetMinutes;',
+         replace='      return b.mDstOffsetMinutes == a.mDstOffsetMinutes\n          && a.mStdOffsetMinutes == b.mStdOffsetMinutes;', expect='silent'),
+    dict(id='equality-kind-test-negated-silent', file='src/ace_time/TimeZone.h', find='  if (a.mType != b.mType) return false;', replace='  if (!(a.mType == b.mType)) return false;', expect='silent'),
+    dict(id='equality-by-early-returns-silent', file='src/ace_time/TimeZoneData.h',
+         find='      return (a.stdOffsetMinutes == b.stdOffsetMinutes)\n          && (a.dstOffsetMinutes == b.dstOffsetMinutes);',
+         replace='      if (a.stdOffsetMinutes != b.stdOffsetMinutes) return false;\n      return a.dstOffsetMinutes == b.dstOffsetMinutes;', expect='silent'),
+    dict(id='equality-switch-on-second-operand-silent', file='src/ace_time/TimeZoneData.h', find='  if (a.type != b.type) return false;\n  switch (a.type) {', replace='  if (a.type != b.type) return false;\n  switch (b.type) {', expect='silent'),
+    dict(id='offsetdatetime-equality-reordered-silent', file='src/ace_time/OffsetDateTime.h',
+         find='  return a.mLocalDateTime == b.mLocalDateTime\n      && a.mTimeOffset == b.mTimeOffset;', replace='  return a.mTimeOffset == b.mTimeOffset\n      && a.mLocalDateTime == b.mLocalDateTime;', expect='silent'),
+    dict(id='save-statements-reordered-silent', file='src/ace_time/TimeZone.h',
+         find='          d.stdOffsetMinutes = mStdOffsetMinutes;\n          d.dstOffsetMinutes = mDstOffsetMinutes;', replace='          d.dstOffsetMinutes = mDstOffsetMinutes;\n          d.stdOffsetMinutes = mStdOffsetMinutes;', expect='silent'),
+    dict(id='manual-offset-commuted-silent', file='src/ace_time/TimeZone.h', unique=False, nth=0,
+         find='return TimeOffset::forMinutes(mStdOffsetMinutes + mDstOffsetMinutes);', replace='return TimeOffset::forMinutes(mDstOffsetMinutes + mStdOffsetMinutes);', expect='silent'),
     dict(id='switch-on-data-constants-silent', file='src/ace_time/ZoneManager.h',
          find='        case TimeZone::kTypeError:\n          return TimeZone::forError();\n        case TimeZone::kTypeManual:',
          replace='        case TimeZoneData::kTypeError:\n          return TimeZone::forError();\n        case TimeZoneData::kTypeManual:', expect='silent'),
